@@ -113,10 +113,18 @@ def run(facts):
         res.ok(key + "|bounds", b.loc(), "T: Send + 'static")
     # (v) stored drop fn is instantiated at the same T
     fns = []
-    for blk in b.blocks:
-        for s in blk["stmts"]:
-            if s["k"] == "assign" and s["rv"]["k"] == "cast" and "fn" in s["rv"]["op"]:
-                fns.append(s["rv"]["op"]["fn"])
+    bodies_v = [b]
+    for _, t_ in b.calls():
+        # the control block (or its header) may be built by a private constructor helper instantiated at the same T (`OwnedLifetime::new::<T>()`)
+        fn_ = callee(t_)
+        r_ = (fn_.get("res") or fn_) if fn_ else {}
+        if r_.get("local") and fn_.get("args") == ["T"] and facts.by_did.get(r_.get("did")) is not None:
+            bodies_v.append(facts.by_did[r_["did"]])
+    for vb in bodies_v:
+        for blk in vb.blocks:
+            for s in blk["stmts"]:
+                if s["k"] == "assign" and s["rv"]["k"] == "cast" and "fn" in s["rv"]["op"]:
+                    fns.append(s["rv"]["op"]["fn"])
     if len(fns) == 1 and fns[0].get("args") == ["T"] and fns[0].get("local"):
         db = facts.by_did.get((fns[0].get("res") or fns[0]).get("did") or fns[0].get("did"))
         ok5 = False
